@@ -7,6 +7,7 @@ import (
 	"io"
 	"os"
 	"path/filepath"
+	"sort"
 	"strings"
 	"sync"
 	"time"
@@ -88,6 +89,33 @@ func c18ReaderScenarios(tier string) []schedScenario {
 				out = append(out, rdScenario{kind: set.kind + "-" + comp, threads: [][]string{{p[0]}, {p[1]}}, qb: 1, tb: 2})
 			}
 		}
+		if set.kind == "table" {
+			// the non-default per-read hash check shares whatever digest state the reader keeps
+			for _, p := range [][2]string{{"get(a)", "get(d)"}, {"get(a)", "get(a)"}, {"get(e)", "range(b,d)"}, {"range(b,d)", "from(c)"}, {"get(a)", "contains(c)"}} {
+				out = append(out, rdScenario{kind: "tablevor", threads: [][]string{{p[0]}, {p[1]}}, qb: 1, tb: 2})
+			}
+			// tables written by earlier versions of the library (other record format, other value encoding)
+			for _, lk := range []string{"tablelegA", "tablelegB", "tablelegC"} {
+				for _, p := range [][2]string{{"get(#1)", "get(#5)"}, {"get(#3)", "range(#2,#6)"}, {"contains(#9)", "from(#4)"}} {
+					out = append(out, rdScenario{kind: lk, threads: [][]string{{p[0]}, {p[1]}}, qb: 1, tb: 2})
+				}
+			}
+		} else {
+			// record files of the earlier format versions take their own read paths
+			var lks []string
+			for lk := range c18LegacyFiles {
+				lks = append(lks, lk)
+			}
+			sort.Strings(lks)
+			for _, lk := range lks {
+				for _, p := range [][2]string{{"at(0)", "at(1)"}, {"at(1)", "at(1)"}, {"at(0)", "seek(0)"}, {"seek(mid)", "at(2)"}} {
+					if strings.Contains(lk, "v1") && strings.Contains(p[0]+p[1], "seek") {
+						continue // SeekNext is documented as unsupported below version 2
+					}
+					out = append(out, rdScenario{kind: lk, threads: [][]string{{p[0]}, {p[1]}}, qb: 1, tb: 2})
+				}
+			}
+		}
 		// three goroutines, and two calls per goroutine
 		c := set.calls
 		out = append(out, rdScenario{kind: set.kind, threads: [][]string{{c[0]}, {c[1]}, {c[5]}}, qb: 1, tb: 2})
@@ -111,6 +139,56 @@ func c18ScenarioByName(name string) schedScenario {
 	return r
 }
 
+var c18LegacyFiles = map[string]string{
+	"mmaplegv1s": "v1_compat/recordio_SnappyWriterMultiRecord_asc",
+	"mmaplegv1u": "v1_compat/recordio_UncompressedWriterMultiRecord_asc",
+	"mmaplegv2s": "v2_compat/recordio_SnappyWriterMultiRecord_asc",
+	"mmaplegv2u": "v2_compat/recordio_UncompressedWriterMultiRecord_asc",
+	"mmaplegv3s": "v3_compat/recordio_SnappyWriterMultiRecord_asc",
+	"mmaplegv3u": "v3_compat/recordio_UncompressedWriterMultiRecord_asc",
+}
+
+var c18LegacyTables = map[string]string{
+	"tablelegA": "SimpleWriteHappyPathSSTable",
+	"tablelegB": "SimpleWriteHappyPathSSTableRecordIOV2",
+	"tablelegC": "v0_compat/SimpleWriteHappyPathSSTableWithBloom",
+}
+
+// legacyOffsets finds the record offsets of a legacy file with the sequential reader's help: the n-th record starts
+// where the reader has consumed n records (the file reader counts its position; we re-derive it from ReadNextAt probing).
+func legacyOffsets(mm recordio.ReadAtI, path string) []uint64 {
+	data := readAll(path)
+	var offs []uint64
+	// records are dense from the 8-byte file header on: walk with ReadNextAt + a sequential reader for the lengths
+	fr, err := recordio.NewFileReaderWithPath(path)
+	if err != nil || fr.Open() != nil {
+		return nil
+	}
+	defer fr.Close()
+	off := uint64(8)
+	for off < uint64(len(data)) && len(offs) < 4 {
+		want, err := fr.ReadNext()
+		if err != nil {
+			break
+		}
+		// the record starts at the first offset >= off where a random-access read returns the same record
+		found := false
+		for o := off; o < uint64(len(data)) && o < off+64; o++ {
+			got, err := mm.ReadNextAt(o)
+			if err == nil && recEq(got, want) {
+				offs = append(offs, o)
+				off = o + 1
+				found = true
+				break
+			}
+		}
+		if !found {
+			break
+		}
+	}
+	return offs
+}
+
 var c18Table = []kv{{[]byte("a"), []byte("alpha")}, {[]byte("b"), []byte("bravo-bravo")}, {[]byte("c"), nil}, {[]byte("d"), []byte("delta")}, {[]byte("e"), incompressible(200, 9)}}
 
 func (r rdScenario) Exec(w *core.WCtx, prefix []int) (x schedExec) {
@@ -124,16 +202,39 @@ func (r rdScenario) Exec(w *core.WCtx, prefix []int) (x schedExec) {
 		comp = map[string]int{"none": 0, "gzip": 1, "snappy": 2, "lzw": 3}[kind[i+1:]]
 		kind = kind[:i]
 	}
-	if kind == "table" {
+	if kind == "table" || kind == "tablevor" {
 		if err := writeTable(dir, c18Table, tblW{Writer: "stream", DataComp: comp, WBuf: 4096}); err != nil {
 			return schedExec{Problems: []string{"setup: " + err.Error()}}
 		}
-		rd, err := openTable(dir, tblR{RBuf: 4096})
+		rd, err := openTable(dir, tblR{RBuf: 4096, VerifyOnRead: kind == "tablevor"})
 		if err != nil {
 			return schedExec{Problems: []string{"setup: " + err.Error()}}
 		}
 		closeFn = rd.Close
 		call = func(name string) string { return tableCall(rd, name) }
+	} else if rel, ok := c18LegacyTables[kind]; ok {
+		rd, err := openTable(filepath.Join(repoRoot(), "sstables", "test_files", rel), tblR{RBuf: 4096})
+		if err != nil {
+			return schedExec{Problems: []string{"setup: " + err.Error()}}
+		}
+		closeFn = rd.Close
+		call = func(name string) string { return tableCall(rd, name) }
+	} else if rel, ok := c18LegacyFiles[kind]; ok {
+		path := filepath.Join(repoRoot(), "recordio", "test_files", rel)
+		mm, err := recordio.NewMemoryMappedReaderWithPath(path)
+		if err == nil {
+			err = mm.Open()
+		}
+		if err != nil {
+			return schedExec{Problems: []string{"setup: " + err.Error()}}
+		}
+		m := rioModel{Offs: legacyOffsets(mm, path)}
+		if len(m.Offs) < 3 {
+			mm.Close()
+			return schedExec{Problems: []string{fmt.Sprintf("setup: only %d record offsets found in legacy file %s", len(m.Offs), rel)}}
+		}
+		closeFn = mm.Close
+		call = func(name string) string { return mmapCall(mm, m, name) }
 	} else {
 		path := filepath.Join(dir, "f.rio")
 		m, _, err := rioWrite(path, []wop{{"W", rioRecIndex("a")}, {"W", rioRecIndex("x918d")}, {"W", rioRecIndex("nil")}, {"W", rioRecIndex("mk00ff")}}, rioCfg{Comp: comp, WBuf: 4096}, rioAlphabet())
@@ -218,11 +319,21 @@ func (r rdScenario) Exec(w *core.WCtx, prefix []int) (x schedExec) {
 	return x
 }
 
+// c18Key: "#n" denotes the 4-byte big-endian key n of the legacy fixtures
+func c18Key(arg string) []byte {
+	if strings.HasPrefix(arg, "#") {
+		var n uint32
+		fmt.Sscan(arg[1:], &n)
+		return be32(n)
+	}
+	return []byte(arg)
+}
+
 func tableCall(rd sstables.SSTableReaderI, name string) string {
 	arg := name[strings.Index(name, "(")+1 : len(name)-1]
 	switch {
 	case strings.HasPrefix(name, "get("):
-		v, err := rd.Get([]byte(arg))
+		v, err := rd.Get(c18Key(arg))
 		if errors.Is(err, sstables.NotFound) {
 			return "notfound"
 		}
@@ -231,18 +342,18 @@ func tableCall(rd sstables.SSTableReaderI, name string) string {
 		}
 		return recStr(v)
 	case strings.HasPrefix(name, "contains("):
-		ok, err := rd.Contains([]byte(arg))
+		ok, err := rd.Contains(c18Key(arg))
 		return fmt.Sprint(ok, err)
 	case strings.HasPrefix(name, "range("):
 		ab := strings.Split(arg, ",")
-		it, err := rd.ScanRange([]byte(ab[0]), []byte(ab[1]))
+		it, err := rd.ScanRange(c18Key(ab[0]), c18Key(ab[1]))
 		if err != nil {
 			return "ERR:" + err.Error()
 		}
 		got, err := drain(it, 20)
 		return fmt.Sprint(kvsStr(got), err)
 	case strings.HasPrefix(name, "from("):
-		it, err := rd.ScanStartingAt([]byte(arg))
+		it, err := rd.ScanStartingAt(c18Key(arg))
 		if err != nil {
 			return "ERR:" + err.Error()
 		}
@@ -281,7 +392,7 @@ func mmapCall(mm recordio.ReadAtI, m rioModel, name string) string {
 
 func (c c18) Run(ctx *core.Ctx) error {
 	ctx.CaseTimeout = 5 * time.Minute
-	ctx.Ev.Rule = "every interleaving within the preemption bound, each executed in a -race build whose scheduler hand-offs add no happens-before edges: (a) the C05 SimpleDB scenarios; (b) 2-3 goroutines x 1-2 calls from {Get, Contains, ScanRange drained, ScanStartingAt drained} on one table reader (default loader), every ordered pair of calls; (c) the same for {ReadNextAt, SeekNext} on one memory-mapped RecordIO reader; in (b),(c) every statement of the reader/index/iterator/mmap files is a scheduling point and the buffer pool is a deterministic LIFO pool (maximal reuse). Oracle: no race report, no panic, every call returns what it returns when executed alone (linearizable history for the database). distinct = (scenario, outcome class); non-trivial = executions with at least one preemption"
+	ctx.Ev.Rule = "every interleaving within the preemption bound, each executed in a -race build whose scheduler hand-offs add no happens-before edges: (a) the C05 SimpleDB scenarios; (b) 2-3 goroutines x 1-2 calls from {Get, Contains, ScanRange drained, ScanStartingAt drained} on one table reader (default loader), every ordered pair of calls; (c) the same for {ReadNextAt, SeekNext} on one memory-mapped RecordIO reader; (b) also with the per-read hash check enabled and on legacy fixture tables, (c) also on the version 1/2/3 fixture files; in (b),(c) every statement of the reader/index/iterator/mmap files is a scheduling point and the buffer pool is a deterministic LIFO pool (maximal reuse). Oracle: no race report, no panic, every call returns what it returns when executed alone (linearizable history for the database). distinct = (scenario, outcome class); non-trivial = executions with at least one preemption"
 	ctx.Ev.Assume = []string{"the race detector keeps a bounded access history per memory word (it can miss, never invent, a race); scenarios are short",
 		"GOMAXPROCS=1: the detector's verdict depends on the order of synchronisation operations, which is what the schedule enumeration varies"}
 	// (a) SimpleDB scenarios, this binary (simpledb rewritten, -race)
